@@ -15,6 +15,7 @@ pkgs_of() {
     citer) echo "./pkg/storage/storagewrappers ./internal/shared golang.org/x/sync/singleflight" ;;
     tsres) echo "golang.org/x/sync/singleflight" ;;
     memw) echo "./pkg/storage/memory google.golang.org/protobuf/types/known/timestamppb" ;;
+    cctl) echo "./internal/cachecontroller ./internal/concurrency ./pkg/storage/storagewrappers ./internal/shared golang.org/x/sync/singleflight" ;;
     *) return 1 ;;
   esac
 }
@@ -27,6 +28,7 @@ main_of() {
     tsres) echo ./internal/verifh/cmd/tsres ;;
     citer) echo ./internal/verifh/cmd/citer ;;
     memw) echo ./internal/verifh/cmd/memw ;;
+    cctl) echo ./internal/verifh/cmd/cctl ;;
   esac
 }
 if [ "${1:-}" = "--is-variant" ]; then pkgs_of "$2" >/dev/null 2>&1; exit $?; fi
@@ -39,6 +41,8 @@ fi
 gen=.build/gen-$v.$$
 rm -rf "$gen"; mkdir -p "$gen"
 flags=""; [ "$v" = iter -o "$v" = citer -o "$v" = memw ] && flags="-time"
+# cctl: the cache controller's `context.WithTimeout(ctx, time.Second)` gets its deadline on the harness clock too
+[ "$v" = cctl ] && flags="-time -ctxtimeout"
 # memw instruments a package of google.golang.org/protobuf (timestamppb.Now -> harness clock): nearly every package
 # of the build depends on that module and the directory of a replaced module is part of the compiler's cache key,
 # so its copy lives at a content-addressed stable path (.build/modcopy/<module>-<hash of the rewritten files>)
